@@ -439,6 +439,21 @@ class Rooting:
                 return f'{cls}.{meth}', self.mod.func(f'{cls}.{meth}'), True
         return None
 
+    def _record_fields(self, e: ast.Call) -> T.Optional[T.List[ast.AST]]:
+        """Arguments of a call that constructs a plain record class of the same module (typing.NamedTuple subclass or @dataclass
+        without an explicit __init__), in field order."""
+        if not isinstance(e.func, ast.Name) or not self.mod.has_cls(e.func.id) or e.func.id in self.imps:
+            return None
+        c = self.mod.cls(e.func.id)
+        is_nt = any((attr_chain(b) or '').split('.')[-1] == 'NamedTuple' for b in c.bases)
+        is_dc = any((attr_chain(d.func if isinstance(d, ast.Call) else d) or '').split('.')[-1] == 'dataclass' for d in c.decorator_list)
+        if not (is_nt or is_dc) or any(isinstance(st, (ast.FunctionDef, ast.AsyncFunctionDef)) and st.name in ('__init__', '__new__', '__post_init__') for st in c.body):
+            return None
+        fields = [st.target.id for st in c.body if isinstance(st, ast.AnnAssign) and isinstance(st.target, ast.Name)]
+        if any(isinstance(a, ast.Starred) for a in e.args) or any(k.arg is None or k.arg not in fields for k in e.keywords) or len(e.args) > len(fields):
+            return None
+        return list(e.args) + [k.value for k in e.keywords]
+
     def sig(self, name: str, default: T.Tuple[str, ...]) -> T.Tuple[str, ...]:
         """Parameter names of the rooting helper (read from its definition, wherever it lives)."""
         if self.mod.has_func(name):
@@ -497,6 +512,13 @@ class Rooting:
                 return out
             if d in PATH_KEEP and len(e.args) == 1:
                 return self.need(e.args[0], busy)
+            rec = self._record_fields(e)
+            if rec is not None:
+                # a NamedTuple / dataclass record built from the arguments: rooted like the tuple of its fields
+                out = set()
+                for x in rec:
+                    out |= self.need(x, busy)
+                return out
             callee = self._callee(e)
             if callee is not None and self.depth < 2:
                 q, cfn, drop = callee
